@@ -46,11 +46,37 @@ pub fn streams() -> Vec<(&'static str, Vec<u8>, Vec<u8>)> {
     let resp3 = b"HTTP/1.1 200 OK\nServer: Apache\nContent-Type: text/plain\n\nline\r\n\r\nX: y\r\n\r\n".to_vec();
     let req4 = b"POST /submit HTTP/1.1\r\nHost: crlf.example\r\nUser-Agent: curl/8.0\r\nContent-Length: 9\r\n\r\nab\n\ncd\n\nX".to_vec();
     let resp4 = b"HTTP/1.1 404 Not Found\r\nServer: nginx/1.2.3\r\nContent-Type: text/html\r\n\r\nline\n\nX: y\n\n".to_vec();
-    vec![("http1", req1, resp1), ("http2", req2, resp2), ("http1-lf-head-crlf-blank-lines-in-body", req3, resp3), ("http1-crlf-head-lf-blank-lines-in-body", req4, resp4)]
+    // HTTP/2 header blocks spread over HEADERS + CONTINUATION frames, the first fragment ending on a field boundary after
+    // the pseudo-headers (so that it decodes on its own): the head is complete only with the END_HEADERS frame
+    let mut e = HpackEnc::default();
+    let mut b = vec![];
+    let mut cuts = vec![];
+    for (i, (n, v)) in [(":method", "GET"), (":path", "/"), (":scheme", "https"), (":authority", "h2c.example"), ("user-agent", "curl/8.0"), ("accept-language", "fr")].iter().enumerate() {
+        b.extend(e.field(n, v, Rep::Indexed, false, false));
+        if i == 2 || i == 4 {
+            cuts.push(b.len());
+        }
+    }
+    let mut req5 = h2::PREFACE.to_vec();
+    req5.extend(h2::settings(&[(3, 100)]));
+    req5.extend(h2::headers_frames(1, &b, &Framing { end_stream: true, splits: cuts, ..Default::default() }));
+    let mut e = HpackEnc::default();
+    let mut b = vec![];
+    let mut cuts = vec![];
+    for (i, (n, v)) in [(":status", "200"), ("server", "h2o/2.2"), ("content-type", "text/plain")].iter().enumerate() {
+        b.extend(e.field(n, v, Rep::LitNoIdxIndexedName, false, false));
+        if i == 0 {
+            cuts.push(b.len());
+        }
+    }
+    let mut resp5 = h2::settings(&[]);
+    resp5.extend(h2::headers_frames(1, &b, &Framing { splits: cuts, ..Default::default() }));
+    resp5.extend(h2::frame(0, 1, 1, b"body"));
+    vec![("http1", req1, resp1), ("http2", req2, resp2), ("http1-lf-head-crlf-blank-lines-in-body", req3, resp3), ("http1-crlf-head-lf-blank-lines-in-body", req4, resp4), ("http2-continuation", req5, resp5)]
 }
 /// number of bytes of the direction's stream that must be contiguous from the start for the head to be complete
 fn head_len(stream: usize, client: bool, bytes: &[u8]) -> usize {
-    if stream != 1 {
+    if stream != 1 && stream != 4 {
         // HTTP/1: the first blank line of either style ends the head
         let crlf = bytes.windows(4).position(|w| w == b"\r\n\r\n").map(|i| i + 4).unwrap_or(bytes.len());
         let lf = bytes.windows(2).position(|w| w == b"\n\n").map(|i| i + 2).unwrap_or(bytes.len());
@@ -60,9 +86,10 @@ fn head_len(stream: usize, client: bool, bytes: &[u8]) -> usize {
         let mut off = if client { h2::PREFACE.len() } else { 0 };
         loop {
             let len = ((bytes[off] as usize) << 16) | ((bytes[off + 1] as usize) << 8) | bytes[off + 2] as usize;
-            let t = bytes[off + 3];
+            let (t, fl) = (bytes[off + 3], bytes[off + 4]);
             off += 9 + len;
-            if t == 1 {
+            // HEADERS or CONTINUATION carrying END_HEADERS completes the head
+            if (t == 1 || t == 9) && fl & 0x4 != 0 {
                 return off;
             }
         }
@@ -315,7 +342,7 @@ pub fn run(thorough: bool) -> Outcome {
     });
     Outcome {
         report: pre.merge(rep),
-        rule: "HTTP/1 (CRLF heads; bare-LF heads whose bodies contain CRLF blank lines; CRLF heads whose bodies contain LF blank lines) and HTTP/2 exchanges after SYN/SYN+ACK, reference = each direction cut exactly behind its head: every 1-, 2- and 3-partition (3-partitions on a stride in quick) of each direction x 9 initial sequence numbers (0, 1, 2^31, 2^31-10, 2^32-1, 2^32-2, 2^32-len, 2^32-len/2, 0x12345678) x every arrival permutation; both directions in two pieces each in all 24 interleavings (with and without wrap); four request pieces in all 24 orders; distinct = distinct per-packet report patterns".into(),
+        rule: "HTTP/1 (CRLF heads; bare-LF heads whose bodies contain CRLF blank lines; CRLF heads whose bodies contain LF blank lines) and HTTP/2 (single HEADERS frame; HEADERS + CONTINUATION frames) exchanges after SYN/SYN+ACK, reference = each direction cut exactly behind its head: every 1-, 2- and 3-partition (3-partitions on a stride in quick) of each direction x 9 initial sequence numbers (0, 1, 2^31, 2^31-10, 2^32-1, 2^32-2, 2^32-len, 2^32-len/2, 0x12345678) x every arrival permutation; both directions in two pieces each in all 24 interleavings (with and without wrap); four request pieces in all 24 orders; distinct = distinct per-packet report patterns".into(),
         exhaustive: true,
         bounds: json!({"histories": hs.len(), "streams": ss.iter().map(|s| (s.0, s.1.len(), s.2.len())).collect::<Vec<_>>()}),
     }
